@@ -46,12 +46,17 @@ EXHAUSTIVE = {"quick": False, "thorough": False}
 
 # ------------------------------------------------------------------ translator
 
-def gen_files(ctx):
+def _gen_module():
     p = os.path.join(os.path.dirname(os.path.dirname(os.path.dirname(os.path.abspath(__file__)))),
                      "tools", "gen_threshold_c11.py")
     spec = importlib.util.spec_from_file_location("gen_threshold_c11", p)
     mod = importlib.util.module_from_spec(spec)
     spec.loader.exec_module(mod)
+    return mod
+
+
+def gen_files(ctx):
+    mod = _gen_module()
     return {"theories/Gen/ThresholdC11.v": mod.translate(ctx.staged_source("centrosome/threshold.py"),
                                                          ctx.staged_source("centrosome/smooth.py"),
                                                          ctx.staged_source("centrosome/otsu.py"))}
@@ -203,6 +208,59 @@ def _thr_case(rng, method, mod, small=False):
     return case
 
 
+def _size_thresholds(ctx):
+    """per method: the pixel counts at which its function (and the otsu helpers it calls) changes branch, read
+    from the integer constants the STAGED sources compare sizes with (get_mog_threshold: 512 ** 2)"""
+    try:
+        mod = _gen_module()
+        th = mod.size_thresholds(ctx.staged_source("centrosome/threshold.py"))
+        ot = mod.size_thresholds(ctx.staged_source("centrosome/otsu.py"))
+    except Exception as e:
+        ctx.note("size thresholds unavailable (%s): using the recorded ones" % e)
+        th, ot = {"get_mog_threshold": [262144]}, {"otsu": [256], "otsu3": [128]}
+    per = {}
+    for m, fn in METHOD_FN.items():
+        cs = set(th.get(fn, []))
+        if m == "Otsu":
+            for v in ot.values():
+                cs.update(v)
+        if m == "RidlerCalvard":
+            cs.update(ot.get("otsu", []))
+        per[m] = sorted(c for c in cs if c >= 2)
+    return per
+
+
+def _branch_cases(ctx, big=True, small=True):
+    """inputs whose masked-pixel count is just below, at and just above every size threshold of every method
+    function: small thresholds as ordinary (Global) cases, thresholds beyond the ordinary image sizes as `big`
+    cases (seed-described image; two identical calls and one call with the masked-out pixels scrambled)"""
+    rng = ctx.rng
+    cases = []
+    for method, cs in _size_thresholds(ctx).items():
+        for c in cs:
+            if c <= 2500 and small:
+                for count in (c - 1, c, c + 1):
+                    side = int(math.ceil(math.sqrt(1.5 * (count + 2)))) + 1
+                    cc = _thr_case(rng, method, 0, small=True)
+                    img = _image(rng, side, side, str(rng.choice(["uni", "bimodal"])))
+                    mask = np.zeros(side * side, bool)
+                    mask[rng.permutation(side * side)[:count]] = True
+                    kw = {}
+                    if method == "Otsu" and c == 128:
+                        kw = {"two_class_otsu": False, "use_weighted_variance": bool(rng.rand() < 0.5),
+                              "assign_middle_to_foreground": bool(rng.rand() < 0.5)}
+                    cc.update(img=img.tolist(), mask=mask.reshape(side, side).astype(int).tolist(), labels=None, lo=0.0, hi=1.0,
+                              kw=kw, dtype="float64", kind="uni", window=2)
+                    cases.append(cc)
+            elif c > 2500 and big and c <= 2000000:
+                side_w = 560 if c < 300000 else int(math.ceil(math.sqrt(1.3 * c)))
+                side_h = int(math.ceil(1.28 * (c + 1) / side_w))
+                for count in (c + 1, c):
+                    cases.append({"fn": "big", "method": method, "H": side_h, "W": side_w, "count": count,
+                                  "seed": int(rng.randint(1 << 30)), "threshold": c})
+    return cases
+
+
 def _mal_case(rng, what):
     """malformed stream: inputs outside the property's quantifier; only outcome-level claims are made"""
     method = str(rng.choice(METHODS[:1] + METHODS[2:]))          # not MoG (slow, nothing new here)
@@ -314,7 +372,12 @@ def generate(ctx):
     for _ in range(ctx.n(90, 1500)):
         cases.append(_body_case(rng, "rob"))
         cases.append(_body_case(rng, "mct"))
+    if not ctx.quick():
+        cases.extend(_branch_cases(ctx))          # quick: only in the search after a broken obligation
     for c in cases:
+        if c["fn"] == "big":
+            ctx.count("big:%s:%d" % (c["method"], c["count"]))
+            continue
         if c["fn"] == "thr":
             ctx.count("thr:%s" % MODS[c["mod"]])
             ctx.count("thr:kind:%s" % c["kind"])
@@ -664,6 +727,25 @@ def impl(case):
                 "p32": float((np.array([a32]) * np.array([b32]))[0])}
     if case["fn"] == "mal":
         return _impl_mal(case)
+    if case["fn"] == "big":
+        import centrosome.threshold as T
+        prng = np.random.RandomState(case["seed"])
+        H, W = case["H"], case["W"]
+        img = prng.rand(H, W)
+        mask = np.zeros(H * W, bool)
+        mask[:case["count"]] = True
+        mask = mask.reshape(H, W)
+
+        def call(im):
+            return T.get_threshold(case["method"], "Global", im.copy(), mask=mask.copy(), threshold_range_min=0.0,
+                                   threshold_range_max=1.0)
+        o1 = _outcome(lambda: call(img))
+        o1b = _outcome(lambda: call(img))
+        im2 = img.copy()
+        im2[~mask] = prng.rand(int((~mask).sum()))
+        o2 = _outcome(lambda: call(im2))
+        return {"det": _same_outcome(o1, o1b), "ni": _same_outcome(o1, o2), "n_out": int((~mask).sum()),
+                "values": [float(o[2]) if o[0] == "ok" else o[1] for o in (o1, o1b, o2)]}
     if case["fn"] in ("rob", "mct"):
         import centrosome.threshold as T
         x = (np.array(case["ints"], float) / float(1 << case["bits"])).reshape(1, -1)
@@ -849,7 +931,7 @@ def compare(case, out, m):
             return "binary32: float32(%r) = %r, product with float32(%r) = %r; model %r, %r" % (
                 case["a"], out["a32"], case["b"], out["p32"], float(_fr(m[1][0])), float(_fr(m[1][1])))
         return None
-    if case["fn"] == "mal":
+    if case["fn"] in ("mal", "big"):
         return None
     if case["fn"] in ("rob", "mct"):
         return _cmp_body(case, out, m)
@@ -917,6 +999,17 @@ def check(ctx, cases, outs):
     bi, bargs = [], []
     for k, (c, o) in enumerate(zip(cases, outs)):
         if c["fn"] == "fmul":
+            continue
+        if c["fn"] == "big":
+            if _bad(o):
+                res[k] = "get_threshold crashed/hung on a %dx%d image: %s" % (c["H"], c["W"], str(o)[:200])
+            elif not o["det"]:
+                res[k] = ("S4 determinism: two identical %s calls on a %dx%d image with %d masked pixels (size threshold %d of "
+                          "the method's function) returned %r and %r" % (c["method"], c["H"], c["W"], c["count"],
+                                                                          c["threshold"], o["values"][0], o["values"][1]))
+            elif not o["ni"]:
+                res[k] = ("S1 non-interference: scrambling the %d masked-out pixels of a %dx%d image changed the %s threshold "
+                          "(%r vs %r)" % (o["n_out"], c["H"], c["W"], c["method"], o["values"][0], o["values"][2]))
             continue
         if c["fn"] in ("rob", "mct"):
             if _bad(o):
@@ -1097,6 +1190,8 @@ def nontrivial(case, out):
         return (not _rejected(case)) and "raised" not in out and out["distinct"] >= 3 and out["n_out"] > 0
     if case["fn"] in ("fmul", "mal"):
         return False
+    if case["fn"] == "big":
+        return True
     if case["fn"] in ("rob", "mct"):
         return len(set(case["ints"])) >= 3
     return len(set(case["ints"])) >= 3
@@ -1134,6 +1229,9 @@ def kernel_crosscheck(ctx, cases, outs):
 def search_cases(ctx, rnd):
     rng = ctx.rng
     cases = []
+    if rnd == 0:
+        # targeted: every method function through all the branches its size comparisons open
+        cases.extend(_branch_cases(ctx))
     for _ in range(2):
         for method in METHODS:
             for mod in (0, 1, 2):
@@ -1146,7 +1244,7 @@ def search_cases(ctx, rnd):
 
 
 def shrink_candidates(case):
-    if case["fn"] in ("fmul", "mal"):
+    if case["fn"] in ("fmul", "mal", "big"):
         return
     if case["fn"] in ("rob", "mct"):
         v = case["ints"]
